@@ -499,13 +499,13 @@ const char* STUB = "pthread primitives (create/join/detach/cancel, mutex, cond, 
 
 } // namespace
 
-REGISTER_SCENARIO(c13_basic, "C13", "thread_basic", genBasic, runBasic, 60000, 3000000, {2, 4, 16, 64}, 30, 200000, 600.0,
+REGISTER_SCENARIO(c13_basic, "C13", "thread_basic", genBasic, runBasic, 300000, 10000000, {2, 4, 16, 64}, 30, 200000, 600.0,
                   "non-trivial: >=2 threads overlapped or a thread had an empty body (worker can finish before its creator resumes); distinct by plan x schedule signature", REAL, STUB, true);
-REGISTER_SCENARIO(c13_pfor, "C13", "parallel_for", genPfor, runPfor, 40000, 2000000, {2, 4, 16, 64}, 30, 400000, 600.0,
+REGISTER_SCENARIO(c13_pfor, "C13", "parallel_for", genPfor, runPfor, 300000, 10000000, {2, 4, 16, 64}, 30, 400000, 600.0,
                   "non-trivial: range of >=2 indices on >=2 threads; distinct by (i0,i1,n) x schedule signature", REAL, STUB, true);
-REGISTER_SCENARIO(c13_pinv, "C13", "parallel_invoke", genPinv, runPinv, 15000, 500000, {2, 4, 16}, 30, 200000, 600.0, "every run (2-4 callables overlap); distinct by plan x schedule signature", REAL,
+REGISTER_SCENARIO(c13_pinv, "C13", "parallel_invoke", genPinv, runPinv, 100000, 3000000, {2, 4, 16}, 30, 200000, 600.0, "every run (2-4 callables overlap); distinct by plan x schedule signature", REAL,
                   STUB, true);
-REGISTER_SCENARIO(c13_group, "C13", "thread_group", genGroup, runGroup, 15000, 500000, {2, 4, 16}, 30, 200000, 600.0, "non-trivial: >=2 members; distinct by plan x schedule signature", REAL, STUB, true);
-REGISTER_SCENARIO(c13_sem, "C13", "semaphore", genSem, runSem, 30000, 1500000, {2, 4, 16}, 30, 200000, 600.0, "non-trivial: >=3 producer/consumer threads; distinct by plan x schedule signature", REAL,
+REGISTER_SCENARIO(c13_group, "C13", "thread_group", genGroup, runGroup, 100000, 3000000, {2, 4, 16}, 30, 200000, 600.0, "non-trivial: >=2 members; distinct by plan x schedule signature", REAL, STUB, true);
+REGISTER_SCENARIO(c13_sem, "C13", "semaphore", genSem, runSem, 200000, 8000000, {2, 4, 16}, 30, 200000, 600.0, "non-trivial: >=3 producer/consumer threads; distinct by plan x schedule signature", REAL,
                   STUB, true);
-REGISTER_SCENARIO(c13_cond, "C13", "condition", genCond, runCond, 20000, 1000000, {2, 4, 16}, 30, 200000, 600.0, "every run (waiters and setter overlap under the documented protocol)", REAL, STUB, true);
+REGISTER_SCENARIO(c13_cond, "C13", "condition", genCond, runCond, 150000, 6000000, {2, 4, 16}, 30, 200000, 600.0, "every run (waiters and setter overlap under the documented protocol)", REAL, STUB, true);
